@@ -357,6 +357,63 @@ static void history_bfs(Harness &H, const std::string &d0, const Grid<S> &g, siz
   }
 }
 
+// ---------------- size as an alphabet: long supports and long collections ---------------------------------
+// (strategies that switch with the number of intervals or of summands have to be exercised beyond small sizes)
+static void large_cases(Harness &H) {
+  for (size_t n : std::vector<size_t>{34, 67}) {
+    auto pts = grid_family("uni", n);
+    for (size_t i = 0; i < n; i++) pts[i] = pts[i] * pts[i] / mpq_class((long)n) + pts[i] / 3 - 5;
+    Grid<S> g = mkgrid<S>(pts);
+    std::string d0 = "large" + std::to_string(n);
+    std::vector<std::pair<Win, Win>> WW = {{Win{0, n}, Win{0, n}}, {Win{0, n - 1}, Win{1, n}}, {Win{2, n / 2}, Win{n / 2 - 3, n - 1}}, {Win{0, 5}, Win{n - 5, n}}, {Win{1, n - 1}, Win{n / 2, n / 2 + 2}}};
+    for (auto &ww : WW)
+      for (int op = 0; op < 5; op++) {
+        static const char *opn[] = {"add", "sub", "mul", "iadd", "isub"};
+        if (!H.take()) continue;
+        H.begin(d0 + ";o2,1;" + wstr(ww.first) + ";" + wstr(ww.second) + ";" + opn[op]);
+        auto sa = mkspline_p<S, 2>(g, ww.first, ww.first.nint() * 3 + 1);
+        auto sb = mkspline_p<S, 1>(g, ww.second, ww.second.nint() * 2 + 2);
+        RefPP ra = alpha(sa), rb = alpha(sb);
+        Outcome oc = attempt([&] {
+          if (op == 0) same_fn(H, "add", sa + sb, radd(ra, rb), "a+b");
+          else if (op == 1) same_fn(H, "sub", sb - sa, rsub(rb, ra), "b-a");
+          else if (op == 2) same_fn(H, "mul", sa * sb, rmul(ra, rb), "a*b");
+          else if (op == 3) { auto t = sa; t += sb; same_fn(H, "iadd", t, radd(ra, rb), "a+=b"); }
+          else { auto t = sa; t -= sb; same_fn(H, "isub", t, rsub(ra, rb), "a-=b"); }
+        });
+        if (oc.threw()) H.fail("large:threw", oc.str());
+        H.cls("large:binary");
+        H.nontriv();
+        H.end();
+      }
+    // long collections for linearCombination: every spline of a generated order-2 basis, and shuffled subsets with zero and interval-free members
+    for (size_t k : std::vector<size_t>{8, 17, 33, n - 3}) {
+      if (!H.take()) continue;
+      H.begin(d0 + ";lincomb;k=" + std::to_string(k));
+      std::vector<Spline<S, 2>> sp;
+      std::vector<S> cs;
+      RefPP ex;
+      for (size_t i = 0; i < k; i++) {
+        size_t s0 = (i * 7) % (n - 3);
+        Win w = (i % 5 == 4) ? Win{s0, s0 + 1} : (i % 11 == 10) ? Win{0, 0} : Win{s0, std::min(n, s0 + 2 + i % 3)};
+        size_t K = w.nint() * 3;
+        sp.push_back(mkspline_p<S, 2>(g, w, K ? K + 1 + i % 2 : 0));
+        mpq_class c = (i % 6 == 5) ? mq(0) : mq((long)(i % 7) - 3, 1 + (long)(i % 3));
+        cs.push_back(mk<S>(c));
+        ex = radd(ex, rscale(alpha(sp.back()), c));
+      }
+      Outcome oc = attempt([&] {
+        same_fn(H, "lincomb", bspline::linearCombination(cs, sp), ex, "linearCombination of " + std::to_string(k) + " splines");
+        same_fn(H, "lincomb-iter", bspline::linearCombination(cs.begin(), cs.end(), sp.begin(), sp.end()), ex, "linearCombination(iterators)");
+      });
+      if (oc.threw()) H.fail("large:threw", oc.str());
+      H.cls("large:lincomb");
+      H.nontriv();
+      H.end();
+    }
+  }
+}
+
 template <size_t OMAX>
 static void per_grid(Harness &H, const std::string &d0, const Grid<S> &g, size_t n, bool big) {
   auto pairs = [&](auto OA) {
@@ -394,6 +451,7 @@ static void run(Harness &H) {
       else per_grid<2>(H, d0, g, n, false);
     }
   }
+  if (part == "all" || part == "e1") large_cases(H);
   if (part == "all" || part == "hist") {
     auto pts = grid_family("nonuni", 4);
     Grid<S> g = mkgrid<S>(pts);
